@@ -451,6 +451,8 @@ pub struct PoolExec {
     genesis_outs: Vec<OutPoint>,
     /// pool contents at the last quiescent point (ids)
     stale_templates: u64,
+    /// transactions taken out of the pool by RPC removal (pool-internal events)
+    internal_removed: BTreeSet<Byte32>,
 }
 
 fn dummy_network(shared: &ckb_shared::Shared, dir: &Path) -> NetworkController {
@@ -556,6 +558,7 @@ impl PoolExec {
             tip_idx: 0,
             genesis_outs,
             stale_templates: 0,
+            internal_removed: BTreeSet::new(),
         })
     }
 
@@ -966,8 +969,13 @@ impl PoolExec {
             POp::Remove { t } => {
                 self.il.write_u64(8);
                 if let Some(tx) = self.txs[*t].clone() {
+                    let before: BTreeSet<Byte32> = self.dump().entries.iter().map(|e| e.tx.hash()).collect();
                     let f = self.pool.remove_tx(tx.hash());
                     let _ = self.run_value(f);
+                    let after: BTreeSet<Byte32> = self.dump().entries.iter().map(|e| e.tx.hash()).collect();
+                    // removed by RPC (with descendants): a submission suspended right now may still add
+                    // a child of one of these - a pool-internal race, not a chain matter
+                    self.internal_removed.extend(before.difference(&after).cloned());
                     self.res.faults.inc("remove_tx");
                     self.check_dump("remove");
                 }
@@ -979,6 +987,13 @@ impl PoolExec {
             }
             POp::Expire => {
                 self.il.write_u64(10);
+                // the service runs the expiry pass only inside a reorg notification, together with
+                // the switch to the new snapshot (a submission that is suspended meanwhile re-checks
+                // its inputs because the tip changed): a bare pass cannot overlap a submission
+                if self.tasks.iter().any(|t| t.name.starts_with("submit")) {
+                    self.res.probes.inc("expiry_pass_skipped_submission_in_flight");
+                    return;
+                }
                 let f = self.pool.remove_expired();
                 self.run_value(f);
                 self.res.faults.inc("expiry_pass");
@@ -1650,6 +1665,7 @@ impl PoolExec {
                 // was never on any chain the model knows: observed, counted, not a C12 violation.
                 let chain_related = self.w.blocks.iter().any(|b| b.view.transactions().iter().any(|t| t.hash() == op.tx_hash()))
                     || self.w.blocks.iter().any(|b| b.view.transactions().iter().skip(1).any(|t| t.inputs().into_iter().any(|j| j.previous_output() == op)));
+                let chain_related = chain_related && !self.internal_removed.contains(&op.tx_hash());
                 if !live && !chain_related {
                     self.res.probes.inc("pool_internal_lost_parent_race_observed");
                 }
@@ -1675,6 +1691,7 @@ impl PoolExec {
                 // event (RPC removal / RBF racing with a suspended submission) is observed, not a C12 matter
                 let chain_related = self.w.blocks.iter().any(|b| b.view.transactions().iter().any(|t| t.hash() == op.tx_hash()))
                     || self.w.blocks.iter().any(|b| b.view.transactions().iter().skip(1).any(|t| t.inputs().into_iter().any(|j| j.previous_output() == op)));
+                let chain_related = chain_related && !self.internal_removed.contains(&op.tx_hash());
                 if !live && !chain_related {
                     self.res.probes.inc("pool_internal_lost_parent_race_observed");
                 }
